@@ -154,6 +154,15 @@ def %(name)s(X: List[int]) -> bool:
         next(it)
         if len([b for b in dl]) != n // BS:
             return False
+    # nested iteration over the same loader: every pass - the outer one too - yields all its batches
+    pairs = 0
+    outer = 0
+    for a in dl:
+        outer += 1
+        for b in dl:
+            pairs += 1
+    if outer != n // BS or pairs != (n // BS) * (n // BS):
+        return False
     return True
 
 
